@@ -70,6 +70,10 @@ def run(prog: Program) -> Results:
         f = prog.funcs[k]
         if f.name in ("from_cst", "__post_init__", "__init__", "__setitem__", "__delitem__") or f.kind == "setter":
             continue
+        if k in render_helpers and (".<" in prog.reviewed_key(k) or prog.reviewed_key(k) != k):
+            # a closure that moved to module level (or a helper without a reviewed role): judged through the renderers that
+            # call it, where its accumulator parameters are the callers' fresh locals
+            continue
         try:
             s = eng.summarize(k)
         except RecursionError:  # pragma: no cover
@@ -78,7 +82,7 @@ def run(prog: Program) -> Results:
         doc = [m for m in s.mut_sites if m.kind == "doc" and m.via is None]
         r1.ob(not doc, {"root": k, "document_writes": [m.text[:60] for m in doc][:3]})
         for m in doc:
-            key = (m.func, "writes shared state", m.text[:100])
+            key = (prog.reviewed_key(m.func), "writes shared state", m.text[:100])
             if key in seen:
                 continue
             seen.add(key)
@@ -100,7 +104,7 @@ def run(prog: Program) -> Results:
                     f"later caller (any document, any thread), so one rebuild changes the output of the next")
         owner_sites = [m for m in s.mut_sites if m.kind == "registry" and m.fld == "owner" and m.via == "model_copy" and m.func == k]
         for m in owner_sites:
-            key = (m.func, "copy retargets scope.owner")
+            key = (prog.reviewed_key(m.func), "copy retargets scope.owner")
             if key in seen:
                 continue
             seen.add(key)
